@@ -719,3 +719,68 @@ Proof.
   intros H. destruct (rest_exempt dur rq parent now H) as [E1 E2].
   destruct (exempt_direct h0 script sched) as [E3 E4]. auto.
 Qed.
+
+(* ------------------------------------------------------------------ *)
+(* several requests through one middleware instance                     *)
+
+Lemma nth_error_upd_same {A} (f : A -> A) : forall l i,
+  nth_error (upd_nth i f l) i = option_map f (nth_error l i).
+Proof.
+  induction l as [|x l IH]; intros [|i]; cbn; auto.
+Qed.
+
+Lemma nth_error_upd_other {A} (f : A -> A) : forall l i j,
+  i <> j -> nth_error (upd_nth i f l) j = nth_error l j.
+Proof.
+  induction l as [|x l IH]; intros [|i] [|j] H; cbn; auto; try congruence.
+Qed.
+
+(* frame: a step of request i leaves every other request's component alone *)
+Lemma mstep_frame ss i e j : i <> j -> nth_error (mstepT ss (i, e)) j = nth_error ss j.
+Proof. intros H. unfold mstepT. cbn. apply nth_error_upd_other, H. Qed.
+
+Lemma mstep_own ss i e :
+  nth_error (mstepT ss (i, e)) i = option_map (fun s => stepT s e) (nth_error ss i).
+Proof. unfold mstepT. cbn. apply nth_error_upd_same. Qed.
+
+(* each component evolves exactly as a single request under its own events *)
+Lemma mrun_proj : forall sched ss j,
+  nth_error (mrun ss sched) j = option_map (fun s => run s (proj j sched)) (nth_error ss j).
+Proof.
+  induction sched as [|[i e] sched IH]; intros ss j.
+  - cbn. destruct (nth_error ss j); reflexivity.
+  - cbn [mrun fold_left]. change (fold_left mstepT sched (mstepT ss (i, e))) with (mrun (mstepT ss (i, e)) sched).
+    rewrite IH. unfold proj. cbn [filter fst]. destruct (Nat.eqb_spec i j) as [E|E].
+    + subst j. rewrite mstep_own. cbn [map snd]. destruct (nth_error ss i); reflexivity.
+    + rewrite mstep_frame by exact E. reflexivity.
+Qed.
+
+Lemma requests_isolated_lemma reqs sched i h0 script :
+  nth_error reqs i = Some (h0, script) ->
+  exists s, nth_error (mrun (minit reqs) sched) i = Some s /\
+            s = run (init h0 script) (proj i sched) /\
+            outcome h0 script s.
+Proof.
+  intros H. exists (run (init h0 script) (proj i sched)).
+  split; [|split; [reflexivity|apply all_or_nothing_lemma]].
+  rewrite mrun_proj. unfold minit.
+  rewrite (map_nth_error (fun r => init (fst r) (snd r)) i reqs H). reflexivity.
+Qed.
+
+(* once request i got its timeout reply, nothing any thread of any request does changes it *)
+Lemma isolated_timeout_final reqs sched1 sched2 i h0 script k s1 :
+  nth_error reqs i = Some (h0, script) ->
+  nth_error (mrun (minit reqs) sched1) i = Some s1 -> sst s1 = STimeoutRet k ->
+  exists s2, nth_error (mrun (minit reqs) (sched1 ++ sched2)) i = Some s2 /\
+             rw s2 = timeout_resp h0 k /\ sst s2 = STimeoutRet k.
+Proof.
+  intros H H1 Hs.
+  destruct (requests_isolated_lemma reqs sched1 i h0 script H) as (s & E & Es & _).
+  assert (E1 : s1 = run (init h0 script) (proj i sched1)) by congruence.
+  destruct (requests_isolated_lemma reqs (sched1 ++ sched2) i h0 script H) as (s2 & E2 & Es2 & _).
+  exists s2. split; [exact E2|].
+  assert (P : proj i (sched1 ++ sched2) = proj i sched1 ++ proj i sched2).
+  { unfold proj. rewrite filter_app, map_app. reflexivity. }
+  rewrite P in Es2. rewrite E1 in Hs. rewrite Es2.
+  apply nothing_after_timeout_lemma, Hs.
+Qed.
